@@ -275,3 +275,85 @@ Proof.
   pose proof (find_sub_crlf_none LEGEND_MARK N ltac:(discriminate) s false [] [] H) as F. fold (crlf s) in F. rewrite F.
   unfold cellbuffer_of_text. rewrite string_buffer_crlf. reflexivity.
 Qed.
+
+(** ** inputs with a legend: the legend is read with CRLF taken as LF (repair F13), so CRLF
+    does not change the cell buffer of any input *)
+Lemma uncrlf_crlf x : forall p b, (p = true -> b = true) -> uncrlf_aux p (crlf_aux b x) = uncrlf_aux p x.
+Proof.
+  induction x as [|c t IH]; intros p b H; cbn [crlf_aux]; [reflexivity|].
+  destruct (Z.eqb_spec c 10) as [->|N10]; cbn [andb].
+  - destruct b; cbn [negb].
+    + cbn [uncrlf_aux]. change (10 =? 13) with false. change (10 =? 10) with true. cbv iota. f_equal. apply IH. discriminate.
+    + assert (p = false) by (destruct p; [specialize (H eq_refl); discriminate|reflexivity]). subst p.
+      cbn [uncrlf_aux]. change (13 =? 13) with true. change (10 =? 13) with false. change (10 =? 10) with true. cbv iota. f_equal. apply IH. discriminate.
+  - destruct (Z.eqb_spec c 13) as [->|N13].
+    + cbn [uncrlf_aux]. change (13 =? 13) with true. cbv iota. destruct p; [f_equal|]; apply IH; reflexivity.
+    + cbn [uncrlf_aux]. replace (c =? 13) with false by (symmetry; apply Z.eqb_neq; exact N13).
+      replace (c =? 10) with false by (symmetry; apply Z.eqb_neq; exact N10).
+      rewrite (IH false false) by discriminate. reflexivity.
+Qed.
+
+Lemma find_sub_eq pat s before :
+  find_sub pat s before =
+  if prefix_of pat s then Some (rev before, s)
+  else match s with c :: t => find_sub pat t (c :: before) | [] => None end.
+Proof. destruct s; reflexivity. Qed.
+
+(** the state of [crlf_aux] after a piece of text: was its last character a CR *)
+Fixpoint cr_state (b : bool) (l : list Z) : bool := match l with [] => b | c :: t => cr_state (c =? 13) t end.
+Lemma crlf_aux_app a x : forall b, crlf_aux b (a ++ x) = crlf_aux b a ++ crlf_aux (cr_state b a) x.
+Proof.
+  induction a as [|c t IH]; intros b; cbn [app crlf_aux cr_state]; [reflexivity|].
+  destruct ((c =? 10) && negb b) eqn:E.
+  - apply andb_true_iff in E. destruct E as [E _]. apply Z.eqb_eq in E. subst c. change (10 =? 13) with false. rewrite IH. reflexivity.
+  - rewrite IH. reflexivity.
+Qed.
+Lemma find_sub_split pat : forall s acc bf fr, find_sub pat s acc = Some (bf, fr) -> exists before, bf = rev acc ++ before /\ s = before ++ fr.
+Proof.
+  induction s as [|c t IH]; intros acc bf fr H; rewrite find_sub_eq in H.
+  - destruct (prefix_of pat []); [|discriminate]. inversion H; subst. exists []. rewrite app_nil_r. split; reflexivity.
+  - destruct (prefix_of pat (c :: t)).
+    + inversion H; subst. exists []. rewrite app_nil_r. split; reflexivity.
+    + destruct (IH _ _ _ H) as [before [E1 E2]]. exists (c :: before). cbn [rev] in E1. rewrite <- app_assoc in E1. split; [exact E1|]. cbn [app]. f_equal. exact E2.
+Qed.
+Lemma find_sub_crlf_some pat : no_eol pat -> pat <> [] -> forall s b acc acc' bf fr,
+  find_sub pat s acc = Some (bf, fr) ->
+  exists before, s = before ++ fr /\ find_sub pat (crlf_aux b s) acc' = Some (rev acc' ++ crlf_aux b before, crlf_aux (cr_state b before) fr).
+Proof.
+  intros N Ne. induction s as [|c t IH]; intros b acc acc' bf fr H; rewrite find_sub_eq in H.
+  - destruct (prefix_of pat []) eqn:P; [|discriminate]. inversion H; subst. exists []. split; [reflexivity|].
+    cbn [crlf_aux cr_state]. rewrite find_sub_eq, P, app_nil_r. reflexivity.
+  - destruct (prefix_of pat (c :: t)) eqn:P.
+    + inversion H; subst. exists []. split; [reflexivity|]. cbn [cr_state]. rewrite find_sub_eq, (prefix_of_crlf pat N (c :: t) b), P, app_nil_r. reflexivity.
+    + destruct (IH (c =? 13) (c :: acc)
+                   (if (c =? 10) && negb b then 10 :: 13 :: acc' else c :: acc') bf fr H) as [before [E1 E2]].
+      exists (c :: before). split; [cbn [app]; f_equal; exact E1|]. cbn [crlf_aux cr_state].
+      destruct ((c =? 10) && negb b) eqn:E.
+      * apply andb_true_iff in E. destruct E as [E _]. apply Z.eqb_eq in E. subst c. change (10 =? 13) with false in *.
+        assert (P1 : prefix_of pat (13 :: 10 :: crlf_aux false t) = false).
+        { destruct pat as [|p pat']; [congruence|]. inversion N as [|? ? [_ H13] _]; subst. cbn [prefix_of].
+          replace (13 =? p) with false by (symmetry; apply Z.eqb_neq; congruence). reflexivity. }
+        assert (P2 : prefix_of pat (10 :: crlf_aux false t) = false).
+        { destruct pat as [|p pat']; [congruence|]. inversion N as [|? ? [H10 _] _]; subst. cbn [prefix_of].
+          replace (10 =? p) with false by (symmetry; apply Z.eqb_neq; congruence). reflexivity. }
+        rewrite find_sub_eq, P1. rewrite find_sub_eq, P2. rewrite E2. cbn [rev]. rewrite <- !app_assoc. reflexivity.
+      * pose proof (prefix_of_crlf pat N (c :: t) b) as Q. cbn [crlf_aux] in Q. rewrite E in Q.
+        rewrite find_sub_eq, Q, P. rewrite E2. cbn [rev]. rewrite <- !app_assoc. reflexivity.
+Qed.
+
+Lemma string_buffer_crlf_aux s : string_buffer (crlf_aux false s) = string_buffer s.
+Proof. apply string_buffer_crlf. Qed.
+
+Theorem cellbuffer_from_crlf s : cellbuffer_from (crlf s) = cellbuffer_from s.
+Proof.
+  destruct (find_sub LEGEND_MARK s []) as [[bf fr]|] eqn:F; [|apply cellbuffer_from_crlf_nolegend; exact F].
+  assert (N : no_eol LEGEND_MARK) by (unfold LEGEND_MARK; repeat constructor; discriminate).
+  destruct (find_sub_crlf_some LEGEND_MARK N ltac:(discriminate) s false [] [] bf fr F) as [before [E1 E2]].
+  destruct (find_sub_split _ _ _ _ _ F) as [before' [B1 B2]]. cbn [rev app] in B1. subst bf.
+  assert (before = before') by (rewrite E1 in B2; apply app_inv_tail in B2; exact B2). subst before'.
+  unfold cellbuffer_from. fold (crlf s). unfold crlf at 1. rewrite E2, F. cbn [rev app].
+  unfold uncrlf. rewrite (uncrlf_crlf fr false _ ltac:(discriminate)).
+  destruct (parse_css_legend (uncrlf_aux false fr)).
+  - unfold cellbuffer_of_text. rewrite string_buffer_crlf_aux. reflexivity.
+  - unfold cellbuffer_of_text. fold (crlf s). rewrite string_buffer_crlf. reflexivity.
+Qed.
